@@ -164,6 +164,72 @@ def run_judge(i_seed):
     return (repr(t), repr(v), msg)
 
 
+def dataclass_case(i_seed):
+    """data classes as conversion targets (the subclass clause of the quantifier): the four flag combinations as class options"""
+    import utype
+    from utype.utils.transform import type_transform
+    from . import dyn
+    warnings.simplefilter("ignore")
+    rng = random.Random(i_seed)
+    base = rng.choice(["Schema", "DataClass"])
+    t = dyn.fresh("Cd")
+    names = {}
+    for nec in (False, True):
+        for ndl in (False, True):
+            nm = "%s_%d%d" % (t, nec, ndl)
+            dyn.declare("class %s(%s):\n    __options__ = Options(no_explicit_cast=%r, no_data_loss=%r)\n    a: int\n    b: str = 'x'\n" % (nm, base, nec, ndl))
+            names[(nec, ndl)] = dyn.get(nm)
+    a = rng.choice([1, "1", 1.0, 1.5, "x", True])
+    d = {"a": a}
+    if rng.random() < 0.4: d["b"] = rng.choice(["y", 5])
+    if rng.random() < 0.4: d["zz"] = 1
+    shape = rng.choice(["dict", "list1", "list2", "inst2", "json", "inst-first"])
+    res = {}
+    for key, K in names.items():
+        if shape == "dict": v = dict(d)
+        elif shape == "list1": v = [dict(d)]
+        elif shape == "list2": v = [dict(d), {"a": 2}]
+        elif shape == "json":
+            import json as _j
+            v = _j.dumps(d)
+        else:
+            try:
+                first = K(a=1)
+            except Exception:
+                return None
+            v = [first, K(a=2)] if shape == "inst2" else [first, dict(d)]
+        try:
+            r = type_transform(v, K, utype.Options(no_explicit_cast=key[0], no_data_loss=key[1]))
+            res[key] = ("ok", {k: getattr(r, k, None) for k in ("a", "b")})
+        except Exception as e:
+            res[key] = ("err", type(e).__name__)
+    for (nec, ndl), r in res.items():
+        if r[0] != "ok":
+            continue
+        for (nec2, ndl2), r2 in res.items():
+            if nec2 <= nec and ndl2 <= ndl and (nec2, ndl2) != (nec, ndl):
+                if r2[0] != "ok" or repr(r2[1]) != repr(r[1]):
+                    return "data class (%s) from %s %r: (nec=%s, ndl=%s) gives %r but the weaker (nec=%s, ndl=%s) gives %r" % (base, shape, d, nec, ndl, r, nec2, ndl2, r2)
+        if ndl and shape in ("list2", "inst2", "inst-first"):
+            return "no_data_loss: a 2-element list (%s, %r) collapsed to one instance %r" % (shape, d, r[1])
+        if ndl and "zz" in d and shape in ("dict", "list1", "json"):
+            return "no_data_loss: the unknown key 'zz' of %r was dropped silently (%r)" % (d, r[1])
+    return ("ok", shape)
+
+
+def dataclass_suite(res, tier, seed):
+    n = 1500 if tier == "quick" else 25000
+    outs = core.pool_map(dataclass_case, [seed * 1000151 + i for i in range(n)])
+    bad = [o for o in outs if isinstance(o, str)]
+    res.add_suite("dataclass-targets", n, n, ["seeded: Schema / DataClass (a: int, b: str = 'x') x 4 flag sets as class options x 6 input shapes"],
+                  "data classes as conversion targets, the four flag combinations given both as class options and as the options of the conversion; inputs: a mapping (with and "
+                  "without an unknown key), a JSON text, a one-element list, two-element lists of mappings / instances: stricter flags "
+                  "only restrict; under no_data_loss a multi-element list never collapses to one instance and an unknown key is "
+                  "never dropped silently", dict(failures=len(bad)))
+    for o in bad[:3]:
+        res.violations.append(dict(case=repr(dict(kind="dataclass-target")), observed=o, what=o))
+
+
 def ndl_addition_finding():
     return False
 
@@ -209,6 +275,7 @@ def main(tier, seed):
                                    what="no_data_loss does not imply addition=False"))
     for t, v, msg in bad[:3]:
         res.violations.append(dict(case="target=%s value=%s" % (t, v), observed=msg, what=msg))
+    dataclass_suite(res, tier, seed)
     return core.finish(res, "make -C coq Props/C12.vo && coqc (Print Assumptions audit)", "see suites", search=None,
                        level_note="partial: theorems are about Model/Conv.v (builtin targets; text-to-number via the modelled Decimal grammar); "
                                   "date/time/uuid/enum/complex targets, bytes decoding errors, tuple excess and unknown keys under the flags are "
